@@ -11,7 +11,7 @@ WT="$(mktemp -d /tmp/try-XXXXXX)"
 OUT="$(mktemp -d /tmp/tryout-XXXXXX)"
 rmdir "$WT"
 git -C /repo worktree add -q "$WT" HEAD || exit 2
-trap 'git -C /repo worktree remove --force "$WT" 2>/dev/null; rm -rf "$OUT" /verif/.build/alt-*' EXIT
+trap 'git -C /repo worktree remove --force "$WT" 2>/dev/null; rm -rf "$OUT" "/verif/.build/alt-$(echo "$WT" | cksum | cut -d" " -f1)"' EXIT
 if ! git -C "$WT" apply "$PATCH"; then echo "patch does not apply"; exit 2; fi
 cd /verif
 for c in $CHECKS; do
